@@ -291,7 +291,13 @@ func (c *ClientStream[RQ, RS]) CloseSend() error {
 		return nil
 	}
 	c.sendErr = freighter.ErrStreamClosed
-	c.requests <- message[RQ]{error: errors.Encode(c.ctx, freighter.EOF, true)}
+	// The handler may have returned without reading everything that was sent: don't
+	// wait for room in the request channel that nobody will make.
+	select {
+	case c.requests <- message[RQ]{error: errors.Encode(c.ctx, freighter.EOF, true)}:
+	case <-c.serverClosed:
+	case <-c.ctx.Done():
+	}
 	close(c.clientClosed)
 	return nil
 }
